@@ -13,6 +13,7 @@ LoopP == <<"loop", << << <<"leaf", "x">> >> >> >>                       \* an an
 SpinDefs == [spin |-> [params |-> <<>>, locals |-> <<>>, body |-> << <<"call", "spin", <<>> >> >>]]
 Spin == <<"call", "spin", <<>> >>
 DfsSpin == <<"dfs", << <<Spin>> >> >>          \* a depth-first block that never answers
+DfsCondSpin(b) == <<"dfs", << << <<"cond", << <<Spin>>, <<Lf(b)>> >> >> >> >> >>  \* a depth-first disjunction whose first clause never answers
 TwoD == <<"cond", << << <<"succeed">> >>, << <<"succeed">> >> >> >>
 DfsTwo(b) == <<"dfs", << <<TwoD, Lf(b)>> >> >>  \* a depth-first block with two labelled answers
 
@@ -38,6 +39,8 @@ WithDfs(P) == {<<"conde", << <<DfsSpin>>, BranchOf(p, "b2") >> >> : p \in P}
               \cup {<<"conde", << <<DfsSpin>>, BranchOf(p, "b2"), BranchOf(q, "b3") >> >> : p \in P, q \in {<<>>, <<Always>>}}
               \cup {<<"conde", << <<DfsTwo("b1")>>, <<DfsSpin>>, BranchOf(p, "b3") >> >> : p \in P}
               \cup {<<"conde", << BranchOf(<<Spin>>, "b1"), BranchOf(p, "b2") >> >> : p \in P}
+              \cup {<<"conde", << <<DfsCondSpin("x")>>, BranchOf(p, "b2") >> >> : p \in P}
+              \cup {<<"conde", << BranchOf(p, "b1"), <<DfsCondSpin("x")>>, BranchOf(<<>>, "b3") >> >> : p \in P}
 FinScope == Conde2(FinPrefixes) \cup Conde3(FinPrefixes) \cup Nested(FinPrefixes) \cup Under(FinPrefixes)
             \cup WithDfs(FinPrefixes)
 GrowScope == Conde2(AllPrefixes) \cup Nested(AllPrefixes)
